@@ -22,9 +22,9 @@ type Ty struct {
 	E *Ty // element type (KOpt, KArr, KDict)
 }
 
-func TRes(i int) *Ty { return &Ty{K: KRes, R: i} }
-func TOpt(e *Ty) *Ty { return &Ty{K: KOpt, E: e} }
-func TArr(e *Ty) *Ty { return &Ty{K: KArr, E: e} }
+func TRes(i int) *Ty  { return &Ty{K: KRes, R: i} }
+func TOpt(e *Ty) *Ty  { return &Ty{K: KOpt, E: e} }
+func TArr(e *Ty) *Ty  { return &Ty{K: KArr, E: e} }
 func TDict(e *Ty) *Ty { return &Ty{K: KDict, E: e} }
 
 // Src prints the type (without the @ annotation); q qualifies composite names
